@@ -78,6 +78,12 @@ func (x *Ex) genFuncsMore(body *LeanFile) {
 	x.embedJob(body, "TwitterExtractor", "extractNonRendered", "twitterNonRendered", "twitterNonRendered")
 	x.genMarkup(body)
 	x.genApply(body)
+	x.bodyStmts(body, "internal/extractor", "ContentExtractor", "ExtractContent", "extractContentBody")
+	x.bodyStmts(body, "internal/extractor", "ContentExtractor", "createWebDocumentInfoFromPage", "createWebDocumentBody")
+	x.bodyStmts(body, "internal/extractor", "ContentExtractor", "processDocument", "processDocumentBody")
+	x.bodyStmts(body, "internal/converter", "DomConverter", "Convert", "converterConvertBody")
+	x.bodyStmts(body, "internal/domutil", "", "WalkNodes", "walkNodesBody")
+	x.bodyStmts(body, "internal/webdoc", "TextBlock", "ApplyToModel", "applyToModelBody")
 }
 
 func (x *Ex) genInventory() string {
